@@ -48,7 +48,7 @@ func c15matchesAs(c *core.Ctx, r *core.Report, rule string) {
 		}
 		return p, prm
 	}
-	for _, ii := range core.InlinedInstrs(c, fn, 2, func(ins ssa.Instruction) bool {
+	for _, ii := range core.InlinedInstrs(c, fn, c.Depth(2), func(ins ssa.Instruction) bool {
 		switch ins.(type) {
 		case *ssa.Call, *ssa.Range, *ssa.Lookup:
 			return true
